@@ -295,6 +295,14 @@ func (c *Ctx) runCalls(ia *interpAnchors, f *ssa.Function) []ssa.CallInstruction
 	if es := c.method("postscript", "Interpreter", "executeScanner"); es != nil {
 		out = append(out, staticCalls(f, es)...)
 	}
+	// calls of helpers that run a procedure on every path
+	eachInstr(f, func(ins ssa.Instruction) {
+		if call, ok := ins.(ssa.CallInstruction); ok {
+			if g := call.Common().StaticCallee(); g != nil && g != ia.executeOne && mustCall(g, ia.executeOne, 2) {
+				out = append(out, call)
+			}
+		}
+	})
 	return out
 }
 
@@ -582,6 +590,14 @@ func (r *regionCtx) intOperand(k int64) ssa.Value {
 			res = ex
 		}
 	})
+	if res == nil {
+		// in a helper the operand arrives as a parameter of type Integer
+		for _, p := range r.f.Params {
+			if typeIsNamed(p.Type(), r.c.typeObj("postscript", "Integer")) {
+				return p
+			}
+		}
+	}
 	return res
 }
 
@@ -720,6 +736,19 @@ func (c *Ctx) operandRegions(ia *interpAnchors, reg *registry) {
 		fname := c.fname(f)
 		rc := &regionCtx{c: c, ia: ia, f: f, fi: newFuncInfo(f)}
 		anchors := ck.anchors(rc)
+		if len(anchors) == 0 {
+			// the guarded access may have moved, together with its guards, into a helper
+			eachInstr(f, func(ins ssa.Instruction) {
+				if call, ok := ins.(ssa.CallInstruction); ok && len(anchors) == 0 {
+					if g := call.Common().StaticCallee(); g != nil && c.inModule(g) && len(g.Blocks) > 0 && g != ia.e {
+						rc2 := &regionCtx{c: c, ia: ia, f: g, fi: newFuncInfo(g)}
+						if a2 := ck.anchors(rc2); len(a2) > 0 {
+							rc, anchors = rc2, a2
+						}
+					}
+				}
+			})
+		}
 		if len(anchors) == 0 {
 			c.undecided("OP-REGION", fname, ck.op+": accepted operands", f.Pos(), "the instruction that uses the accepted operands was not found")
 			continue
